@@ -17,7 +17,8 @@ func init() {
 			"R2 matched can become true only under a true c.Match verdict and is false on the path where c.Replace fails; R3 FileMatcher.Match reports a match only when at least one node matched; R4 patch.File.Apply returns its src parameter itself (and a nil error) whenever no change produced a file. " +
 			"NOT decided: nothing about mtime/inode beyond 'no file-system mutator is called on that path'; behaviour of go/parser on the input." +
 			" R1 also: under --print-only the echo of an unmatched file is unconditional; R4 also: the value tested against nil is nil unless a change produced a file." +
-			" R5 each file is processed once.",
+			" R5 each file is processed once." +
+			" R6 the bytes kept until the echo are not a window into a re-used buffer (C03-R12).",
 		Trusted:     commonTrusted,
 		Assumptions: commonAssumptions,
 	})
@@ -34,6 +35,9 @@ func runC06(r *an.Run) {
 	// an unmatched file is echoed once: every file is processed once per run (de-duplicated by absolute path)
 	c15OnceInOrder(r)
 	relabel(r, "R3-each-file-once-in-fixed-order", "R5-each-file-is-processed-once")
+	// what is echoed for an unmatched file is what was read from it: the bytes kept until the echo are not a
+	// window into a buffer that is rewound and filled again for another file
+	noTransientBufferRetained(r, "R6-kept-bytes-are-not-a-window-into-a-reused-buffer")
 }
 
 func c06NoEffectPath(r *an.Run, m *runModel) {
